@@ -9,6 +9,7 @@ import (
 	"strconv"
 	"strings"
 	"unicode"
+	"unicode/utf16"
 	"unicode/utf8"
 
 	"github.com/robertkrimen/otto/ast"
@@ -771,6 +772,20 @@ func parseStringLiteral(literal string) (string, error) {
 				}
 				if value > utf8.MaxRune {
 					panic("value > utf8.MaxRune")
+				}
+				if utf16.IsSurrogate(value) && len(str) >= 6 && str[0] == '\\' && str[1] == 'u' {
+					// An escaped surrogate pair is one character.
+					var low rune
+					paired := true
+					for j := 2; j < 6; j++ {
+						decimal, ok := hex2decimal(str[j])
+						paired = paired && ok
+						low = low<<4 | decimal
+					}
+					if r := utf16.DecodeRune(value, low); paired && r != utf8.RuneError {
+						value = r
+						str = str[6:]
+					}
 				}
 			case '0':
 				if len(str) == 0 || '0' > str[0] || str[0] > '7' {
